@@ -37,7 +37,7 @@ package adapter
 //@ macro ibcPkt(cc) = cast(cc, "*types/component/adapter.IBCCrossChainPacket")
 //@ macro dataOf(cc) = ics20Of(bytesof(ibcPkt(cc).data))
 //@ func (a *IBCAdapter) ParsePacket(ccPacket) (result, err)
-//@   requires[base] a != nil && a.parser != nil
+//@   requires[inv]  a != nil && a.parser != nil
 //@   ensures[base] err == nil ==> result != nil && payloadFieldsOK(result.Payload) && !isnil(result.Coin.Amount)
 //@   ensures[C16]  err == nil ==> istype(ccPacket, "*types/component/adapter.IBCCrossChainPacket") && ibcPkt(ccPacket) != nil && isICS20(bytesof(ibcPkt(ccPacket).data))
 //@   ensures[C16]  err == nil ==> prefixof(denomPrefix(ibcPkt(ccPacket).sourcePort, ibcPkt(ccPacket).sourceChannel), dataOf(ccPacket).Denom)
